@@ -10,7 +10,7 @@ def components():
 
 
 def oracles_():
-    return [comps_difftree.KeepStream(), comps_uord.UordReverseOracle(), oracles.DiffRev(), oracles.DiffUordRev(), comps_difftree.DiffTreeLaws("C13")]
+    return [comps_difftree.KeepStream(), comps_uord.UordReverseOracle(), oracles.DiffRev(), oracles.DiffUordRev(), comps_difftree.DiffTreeLaws("C13"), comps_difftree.FixedRegress("C13")]
 
 
 MANIFEST = {
@@ -23,8 +23,8 @@ MANIFEST = {
             "A,B reverse(diff(A,B)) succeeds and applied to B yields A exactly, flags included), C13_reverse_meaning (reversal exchanges "
             "the roles of the trees for every diff that describes the change, whatever its sibling order), C13_reverse_involutive_refuted "
             "/ _partial (reverse twice loses the default flag of duplicated parents in the diff tree but keeps the meaning), "
-            "C13_merge_apply_refuted (witness: merging a none that turns leaves into defaults into a create leaves the created "
-            "non-presence containers explicit - finding merge-npcont-dflt, reproduced on libyang), C13_merge_undo (for all well-formed "
+            "C13_merge_apply_regression (the witness of the former finding merge-npcont-dflt, fixed in libyang by 2dd55cd and in the "
+            "model with it: the merged diff now yields C exactly), C13_merge_undo (for all well-formed "
             "A,B over a schema without user-ordered lists merging diff(B,A) into diff(A,B) gives the EMPTY diff, both merge options) "
             "and its corollary C13_merge_apply_partial (the composition law for C = A). Tie: the extracted models of "
             "lyd_diff_reverse_all and lyd_diff_merge_all (whole merge table, redundancy removal, both merge options) must print the same "
@@ -32,7 +32,8 @@ MANIFEST = {
             "dtree-C13); the laws are also judged on the implementation by dump equality (difftree-laws-C13).",
     "note": "Modelled C: lyd_diff_reverse_all restricted to one user-ordered leaf-list. Tree level (slice difftree): lyd_diff_reverse_all (incl. lyd_diff_reverse_value/_default, "
             "the ignored error of lyd_diff_reverse_remove_op_r), lyd_diff_merge_r with lyd_diff_merge_none/_replace/_create/_delete, "
-            "lyd_diff_is_redundant and the default-flag walks in the diff tree. The composition law (merge_apply) for arbitrary C has no proof: it is "
-            "refuted as stated (default flag of created non-presence containers) and otherwise tied by T2 + the dump-level oracle only.",
+            "lyd_diff_is_redundant and the default-flag walks in the diff tree. The composition law (merge_apply) for arbitrary C has no general proof "
+            "(proved for C = A); no counterexample is known since 2dd55cd, it is tied by T2 and checked by dump equality on the "
+            "implementation for every generated triple. Fixed diff findings are kept as regression cases (difftree-regress-*).",
     "technique": "Coq proof/refutation on list-level model + differential correspondence + API metamorphic oracle",
 }
